@@ -192,12 +192,18 @@ class Auditor:
             return ('place', c[1], c[2])
         return c
 
-    def canon(self, e):
+    def canon(self, e, _normed=False):
         """normal form for comparisons: inlined, lengths canonicalised"""
         if not isinstance(e, tuple) or not e:
             return e
-        if isinstance(e[0], str):
-            e = norm(e)
+        if not _normed:
+            memo = self.__dict__.setdefault('_canon_memo', {})
+            hit = memo.get(id(e))
+            if hit is not None and hit[0] is e:
+                return hit[1]
+            r = self.canon(norm(e) if isinstance(e[0], str) else e, True)
+            memo[id(e)] = (e, r)
+            return r
         if e and e[0] == 'ref' and len(e) == 3 and e[1][0] == 'p' and all(el[0] == 'f' for el in e[2]):
             x = ('mem', e[1])
             for el in e[2]:
@@ -207,7 +213,7 @@ class Auditor:
         if l is not None:
             return l
         if isinstance(e, tuple):
-            return tuple(self.canon(x) if isinstance(x, tuple) else x for x in e)
+            return tuple(self.canon(x, True) if isinstance(x, tuple) else x for x in e)
         return e
 
     def rng(self, e, s, blk, env=(), depth=0):
